@@ -21,6 +21,7 @@ def check(repo: Repo, rep, tier):
 
     nested_drop(repo, rep)
     align_complete(repo, rep)
+    zip_lockstep(repo, rep)
 
 
 def _check(repo: Repo, rep, tier):
@@ -716,3 +717,53 @@ def leaf_only_update(repo: Repo, rep):
             rep.ok("R-LEAF-ONLY-UPDATE", s.func, s.call, "Replace only for values without items()")
         else:
             rep.violation("R-LEAF-ONLY-UPDATE", s.func, s.call, f"{s.func.qualname} can replace a whole container (a value whose adapter has items()): a never-compared `snapshot([0 + 1, *rest()])` is rewritten to its literal value by update, star-expression included", construct="container-replace")
+
+
+def zip_lockstep(repo: Repo, rep):
+    rep.rule(
+        "R-ZIP-LOCKSTEP",
+        "runtime elements and AST children are paired in lock-step: in the adapters, a loop that walks the children of a node (`.elts`, `.keys`, `.values`, "
+        "`.args`, `.keywords`) and draws the runtime values from a separate iterator with `next(<it>)` does so on EVERY path of an iteration (or uses zip).  "
+        "An iterator that advances only on some paths (e.g. only for non-literal keys) pairs every later value with the wrong node: an update then writes "
+        "one entry's value into another entry",
+    )
+    n = 0
+    for f in repo.pkg_funcs():
+        if not f.module.rel.startswith("_adapter/"):
+            continue
+        loops = [x for x in body_nodes(f.node) if isinstance(x, ast.For) and any(isinstance(y, ast.Attribute) and y.attr in PAIR_ATTRS and "node" in norm(y.value) for y in ast.walk(x.iter))]
+        if not loops:
+            continue
+        cfg = cfg_of(f)
+        for lp in loops:
+            head = [nd for nd in cfg.live if nd.kind == "for" and nd.ast is lp]
+            if not head:
+                continue
+            h = head[0]
+            body = reach(cfg, [b for b, l in h.succ if l == "iter"], blocked_nodes=[h])
+            draws = {}
+            for nd in body:
+                for c in node_calls(nd):
+                    if isinstance(c.func, ast.Name) and c.func.id == "next" and c.args and isinstance(c.args[0], ast.Name):
+                        draws.setdefault(c.args[0].id, []).append(nd)
+            for it, nodes in draws.items():
+                # the iterator must come from a runtime value, not from the node itself
+                src = [def_value(d, it) for d in reaching_defs(cfg, h, it)]
+                if any(v is not None and any(isinstance(y, ast.Attribute) and y.attr in PAIR_ATTRS and "node" in norm(y.value) for y in ast.walk(v)) for v in src):
+                    continue
+                n += 1
+                r = reach(cfg, [b for b, l in h.succ if l == "iter"], blocked_nodes=nodes, skip_labels=("exc",))
+                if h in r:
+                    rep.violation(
+                        "R-ZIP-LOCKSTEP",
+                        f,
+                        nodes[0].ast,
+                        f"{f.qualname}: `next({it})` is not reached on every path of an iteration over `{short(lp.iter, 40)}`: the runtime values fall out of step with the nodes, later values are paired with the nodes of other entries "
+                        "(an update of a never-compared snapshot with literal and non-literal keys writes one entry's value into another)",
+                        construct=f"{f.qualname}:{it}",
+                    )
+                else:
+                    rep.ok("R-ZIP-LOCKSTEP", f, nodes[0].ast, f"`{it}` advances once per node")
+    rep.count("separate_value_iterators", n)
+    if n == 0:
+        rep.ok("R-ZIP-LOCKSTEP", repo.func("_adapter/dict_adapter.py::DictAdapter.items"), None, "values and nodes are paired with zip / one shared loop", site="src/inline_snapshot/_adapter/*: value iterators")
